@@ -65,6 +65,13 @@ def gen_cases(seed, tier):
             for shape in ('%s', 'a%sb', '%s%s', 'x%s') if not quick else (rnd.choice(['%s', 'x%s']), rnd.choice(['a%sb', '%s%s'])):
                 s = unicodedata.normalize('NFC', shape.replace('%s', ch))
                 cases.append(_case(s, xml, rnd.choice(PROTS), rnd.choice(POLS), 'table-char'))
+    # the pass-through boundary: every C0/C1 control, DEL and the printable ASCII range, alone and between letters,
+    # under 'fail' (must raise exactly outside the pass-through range) and under a replacing policy
+    for c in list(range(0, 0xA1)) + [0xAD, 0x2028, 0x2029, 0xFEFF]:
+        for xml in (False, True):
+            for pol in ('fail', rnd.choice(['replace', 'ignore', 'unihex', 'keep'])):
+                cases.append(_case(chr(c), xml, rnd.choice(PROTS), pol, 'passthrough-boundary'))
+                cases.append(_case('a' + chr(c) + 'b', xml, rnd.choice(PROTS), pol, 'passthrough-boundary'))
     pool = ([chr(c) for c in sorted(D)] + list(ACTIVE) + list('ab 1.\n\t') +
             ['\x00', '\x07', '\x7f', '\x85', '́', '̋', '​', '\U0001F600', '\U000E0001', '͸', '퟿',
              '�', '\U0010FFFF', '中', 'é', 'ß'])
